@@ -92,12 +92,6 @@ theorem us_setextClose (n : Nat) (hn0 : n ≠ 0) : Keeps US (setextClose n) := b
 
 /-! ### dispatch -/
 
-/-- the parsers that are not list parsers -/
-def BP.notList : BP → Bool
-  | .list => false
-  | .listItem => false
-  | _ => true
-
 theorem us_bpOpen (bp : BP) (h : bp.notList = true) (p : Nat) : Keeps US (bpOpen bp p) := by
   cases bp <;> unfold bpOpen
   · exact us_setextOpen p
